@@ -37,7 +37,7 @@ import (
 )
 
 const preamble = `From Coq Require Import String List NArith ZArith Bool.
-From Fabio Require Import Lib.Outcome Lib.Bytes Lib.Pack Model.Headers Model.HeadersSpec Check.C08.
+From Fabio Require Import Lib.Outcome Lib.Bytes Lib.Pack Model.Headers Model.HeadersSpec Model.HeaderLines Check.C08.
 Import ListNotations.
 Local Open Scope N_scope.
 `
@@ -1098,7 +1098,10 @@ func main() {
 			map[string]interface{}{"fn": "http.Server -> HTTPProxy.ServeHTTP", "cfg": cfgSample(&cfg), "remote_host_part": func() string { h, _ := peerOf(res.seen.RemoteAddr); return h }(), "host": res.seen.Host, "tls": res.seen.TLS, "proto": res.seen.Proto, "host_opt": t.HostOpt,
 				"client": project(res.seen.Hdr, &cfg), "upstream": project(res.up, &cfg), "upstream_host": res.uhost, "sts": res.sts, "upstream_sts": t.UpSTS, "status": res.code})
 	}
-	run.Notes["websocket_upstream"] = "loopback listener, one connection per websocket case"
+	// header LINES with empty / blank X-Forwarded-For values, to the upstream's end of the wire
+	// through a real http.Transport / the websocket handler (lines.go; a rand source of its own)
+	runLineClasses(run, ws, plainFront, tlsFront, addCase, serveCase)
+	run.Notes["websocket_upstream"] ="loopback listener, one connection per websocket case"
 	run.Notes["real_connections"] = "net/http server on loopback (plain and TLS), raw-bytes client; r.TLS / RemoteAddr / Host / header canonicalisation from net/http"
 	run.Finish(preamble, run.Scale(140, 600))
 }
